@@ -153,6 +153,15 @@ func (vc *VC) fieldSort(T, f string) (string, *Ty, error) {
 	}
 	fi := si.Field(f)
 	if fi == nil {
+		for _, g := range vc.cs.GhostFields {
+			if g.Struct == T && g.Name == f {
+				ty, err := vc.u.tyOfTypeExpr(g.Ty, vc.cs)
+				if err != nil {
+					return "", nil, err
+				}
+				return arraySort("Int", ty.Sort()), ty, nil
+			}
+		}
 		return "", nil, fmt.Errorf("struct %s has no field %s", T, f)
 	}
 	return arraySort("Int", fi.Ty.Sort()), fi.Ty, nil
